@@ -788,3 +788,115 @@ package log
 //@   loop 1 iteration[C03:event-released-after-delivery] dyn(v, *Event) ==> pooled[ifval(v)]
 //@   loop 1 iteration[C06:one-item-per-iteration] deq == tsnoc(iter(deq), 11, c.buf, ifval(v), iftag(v), "")
 //@   ensures[C05:wait-closed-when-done] closed[c.wait] && tkind(chlog) == 12 && ta(chlog) == c.wait
+
+// ---- C07: the JSON encoder against the structure of a JSON text ---------------------------------------
+// stk[enc] is the ghost structure stack of an encoder (theory 35_jsonstruct): each method requires a legal
+// position, performs the grammar's transition as a ghost assignment, keeps the representation invariant
+// between the remembered last token and the stack, and emits exactly the separator the grammar demands.
+//@ ghost var stk map[ref]Stk
+//@ spec fun jsonOK(enc *JSONEncoder) bool = enc != nil && enc.buf != nil && json_rep(enc.last, stk[enc]) && stk_ok(stk[enc])
+//@ spec fun preV(enc *JSONEncoder) Bytes = comma_before_value(stk[enc]) ? bsnoc(enc.buf.out, 44) : enc.buf.out
+//@ spec fun preK(enc *JSONEncoder) Bytes = comma_before_key(stk[enc]) ? bsnoc(enc.buf.out, 44) : enc.buf.out
+
+//@ func NewJSONEncoder
+//@   modifies nothing
+//@   ghost stk[result] = stk0
+//@   ensures[C07,C08:fresh-encoder] fresh(result) && result.buf == buf && result.last == 0
+
+//@ func (*JSONEncoder).Reset
+//@   requires enc != nil
+//@   modifies enc.last
+//@   ghost stk[enc] = stk0
+//@   ensures[C07,C08:reset] enc.last == 0 && json_rep(enc.last, stk[enc])
+
+//@ func (*JSONEncoder).appendSeparator
+//@   requires enc != nil && enc.buf != nil
+//@   modifies enc.buf.out
+//@   ensures[C07:separator-after-a-completed-value] enc.buf.out == ((enc.last == 2 || enc.last == 4 || enc.last == 6) ? bsnoc(old(enc.buf.out), 44) : old(enc.buf.out))
+
+//@ func (*JSONEncoder).AppendObjectBegin
+//@   requires jsonOK(enc) && value_legal(stk[enc])
+//@   modifies enc.last, enc.buf.out
+//@   ghost stk[enc] = stk_push(old(stk[enc]), 1)
+//@   ensures[C07:rep] json_rep(enc.last, stk[enc]) && stk_ok(stk[enc])
+//@   ensures[C07:token] enc.buf.out == bsnoc(old(preV(enc)), 123)
+
+//@ func (*JSONEncoder).AppendObjectEnd
+//@   requires jsonOK(enc) && end_obj_legal(stk[enc])
+//@   modifies enc.last, enc.buf.out
+//@   ghost stk[enc] = stk_pop(old(stk[enc]))
+//@   ensures[C07:rep] json_rep(enc.last, stk[enc]) && stk_ok(stk[enc])
+//@   ensures[C07:token] enc.buf.out == bsnoc(old(enc.buf.out), 125)
+
+//@ func (*JSONEncoder).AppendArrayBegin
+//@   requires jsonOK(enc) && value_legal(stk[enc])
+//@   modifies enc.last, enc.buf.out
+//@   ghost stk[enc] = stk_push(old(stk[enc]), 2)
+//@   ensures[C07:rep] json_rep(enc.last, stk[enc]) && stk_ok(stk[enc])
+//@   ensures[C07:token] enc.buf.out == bsnoc(old(preV(enc)), 91)
+
+//@ func (*JSONEncoder).AppendArrayEnd
+//@   requires jsonOK(enc) && end_arr_legal(stk[enc])
+//@   modifies enc.last, enc.buf.out
+//@   ghost stk[enc] = stk_pop(old(stk[enc]))
+//@   ensures[C07:rep] json_rep(enc.last, stk[enc]) && stk_ok(stk[enc])
+//@   ensures[C07:token] enc.buf.out == bsnoc(old(enc.buf.out), 93)
+
+//@ func (*JSONEncoder).AppendEncoderBegin
+//@   requires jsonOK(enc) && value_legal(stk[enc])
+//@   modifies enc.last, enc.buf.out
+//@   ghost stk[enc] = stk_push(old(stk[enc]), 1)
+//@   ensures[C07:rep] json_rep(enc.last, stk[enc]) && stk_ok(stk[enc])
+//@   ensures[C07:token] enc.buf.out == bsnoc(old(preV(enc)), 123)
+
+//@ func (*JSONEncoder).AppendEncoderEnd
+//@   requires jsonOK(enc) && end_obj_legal(stk[enc])
+//@   modifies enc.last, enc.buf.out
+//@   ghost stk[enc] = stk_pop(old(stk[enc]))
+//@   ensures[C07:rep] json_rep(enc.last, stk[enc]) && stk_ok(stk[enc])
+//@   ensures[C07:token] enc.buf.out == bsnoc(old(enc.buf.out), 125)
+
+//@ func (*JSONEncoder).AppendKey
+//@   requires jsonOK(enc) && key_legal(stk[enc])
+//@   modifies enc.last, enc.buf.out
+//@   ghost stk[enc] = stk_key(old(stk[enc]))
+//@   ensures[C07:rep] json_rep(enc.last, stk[enc]) && stk_ok(stk[enc])
+//@   ensures[C07:token] enc.buf.out == bsnoc(bsnoc(binit(binit(enc.buf.out)), 34), 58) && Ext(bsnoc(old(preK(enc)), 34), binit(binit(enc.buf.out)), RP(key, len(key)))
+
+//@ func (*JSONEncoder).AppendBool
+//@   requires jsonOK(enc) && value_legal(stk[enc])
+//@   modifies enc.last, enc.buf.out
+//@   ghost stk[enc] = stk_child_done(old(stk[enc]))
+//@   ensures[C07:rep] json_rep(enc.last, stk[enc]) && stk_ok(stk[enc])
+//@   ensures[C07:token] enc.buf.out == bapp(old(preV(enc)), fmt_bool(v))
+
+//@ func (*JSONEncoder).AppendInt64
+//@   requires jsonOK(enc) && value_legal(stk[enc])
+//@   modifies enc.last, enc.buf.out
+//@   ghost stk[enc] = stk_child_done(old(stk[enc]))
+//@   ensures[C07:rep] json_rep(enc.last, stk[enc]) && stk_ok(stk[enc])
+//@   ensures[C07:token] enc.buf.out == bapp(old(preV(enc)), fmt_int(v, 10))
+
+//@ func (*JSONEncoder).AppendUint64
+//@   requires jsonOK(enc) && value_legal(stk[enc])
+//@   modifies enc.last, enc.buf.out
+//@   ghost stk[enc] = stk_child_done(old(stk[enc]))
+//@   ensures[C07:rep] json_rep(enc.last, stk[enc]) && stk_ok(stk[enc])
+//@   ensures[C07:token] enc.buf.out == bapp(old(preV(enc)), fmt_uint(u, 10))
+
+//@ func (*JSONEncoder).AppendFloat64
+//@   requires jsonOK(enc) && value_legal(stk[enc])
+//@   modifies enc.last, enc.buf.out
+//@   ghost stk[enc] = stk_child_done(old(stk[enc]))
+//@   ensures[C07:rep] json_rep(enc.last, stk[enc]) && stk_ok(stk[enc])
+//@   ensures[C07:finite-number] float_finite(v) ==> enc.buf.out == bapp(old(preV(enc)), fmt_float(v))
+//@   ensures[C07:non-finite-as-string] !float_finite(v) ==> enc.buf.out == bsnoc(bapp(bsnoc(old(preV(enc)), 34), fmt_float(v)), 34)
+//@   replay bits = v
+
+//@ func (*JSONEncoder).AppendString
+//@   requires jsonOK(enc) && value_legal(stk[enc])
+//@   modifies enc.last, enc.buf.out
+//@   ghost stk[enc] = stk_child_done(old(stk[enc]))
+//@   ensures[C07:rep] json_rep(enc.last, stk[enc]) && stk_ok(stk[enc])
+//@   ensures[C07:token] enc.buf.out == bsnoc(binit(enc.buf.out), 34) && Ext(bsnoc(old(preV(enc)), 34), binit(enc.buf.out), RP(v, len(v)))
+
